@@ -32,6 +32,7 @@ func suiteC20(r *Run) {
 		// oracle: a sender never runs ahead of its receiver by more than one buffered message
 		cSendsDone, hRecvs := 0, 0
 		hSendsDone, cRecvFrames, headerCalls := 0, 0, 0
+		sawSecondResponseError := false
 		sawBlocked := false
 		done := false
 		pendingSend := map[string]bool{}
@@ -59,6 +60,8 @@ func suiteC20(r *Run) {
 					hRecvs++
 				case strings.HasPrefix(e, "cr:msg:"):
 					cRecvFrames++
+				case e == "cr:status:13" && sc.kind == "cstream":
+					sawSecondResponseError = true
 				}
 			}
 			if st.op == "send" {
@@ -66,7 +69,15 @@ func suiteC20(r *Run) {
 					sawBlocked = true
 				}
 			}
-			if !done && sc.kind != "cstream" && hSendsDone > cRecvFrames+headerCalls+1 {
+			// (on a single-response method the client's look-ahead for a second message may hold one more frame)
+			lookAhead := 0
+			if sc.kind == "cstream" {
+				lookAhead = 1
+				if sawSecondResponseError {
+					lookAhead = 2 // the look-ahead took the second frame off the channel and rejected it
+				}
+			}
+			if !done && hSendsDone > cRecvFrames+headerCalls+1+lookAhead {
 				r.Violate("inproc/backpressure/handler-runs-ahead", "a sender cannot run ahead of its receiver by more than one buffered message per direction",
 					sprintf("%d handler sends completed while the client received %d messages (Header() calls that may have peeked one: %d)", hSendsDone, cRecvFrames, headerCalls), sc.desc(), sc.line())
 				break
